@@ -140,6 +140,14 @@ Proof.
   apply wr_each_appender. intros x Hx. apply hvccnalu_enc, Hn, Hx.
 Qed.
 
+(** every rendered NAL unit occupies at least the two bytes of its length field: this is what
+    makes the [num_nalus * 2 > end - position] guard of the decoder pass on rendered arrays *)
+Lemma hvccnalus_len2 l : 2 * lenN l <= lenN (flat_map iso_hvccnalu l).
+Proof.
+  induction l as [|x l IH]; [vm_compute; discriminate|].
+  cbn [flat_map]. rewrite lenN_cons, lenN_app, hvccnalu_len. clear -IH. lia.
+Qed.
+
 Lemma hvccarray_dec {B} m e a (k' : hvccarray -> prog B) d l p' rest' :
   hvccarray_wf a = true -> p' + lenN (iso_hvccarray a) <= e -> e < U64 ->
   run (bind (dec_hvccarray m e) k') (mkStream d l p' (iso_hvccarray a ++ rest'))
@@ -152,7 +160,11 @@ Proof.
   unfold iso_hvccarray in *. rewrite !lenN_app, !lenN_be in *.
   fold (hvcc_b3 (iso_bit (hvccarray_completeness a)) (hvccarray_nal_unit_type a)).
   unfold dec_hvccarray. rewrite <- !app_assoc.
-  do 2 rd_step. prog_norm. rewrite run_Alloc'. rewrite to_nat_lenN'. rewrite !bind_bind.
+  do 2 rd_step. prog_norm. rewrite run_GetPos.
+  pose proof (hvccnalus_len2 (hvccarray_nalus a)) as H2.
+  match goal with |- context [?x <? ?y] =>
+    replace (x <? y) with false by (symmetry; apply N.ltb_ge; clear -Hle H2; lia) end.
+  cbv iota. prog_norm. rewrite run_Alloc'. rewrite to_nat_lenN'. rewrite !bind_bind.
   rewrite (run_rd_n_var (dec_hvccnalu m e) iso_hvccnalu e);
     [| intros; apply hvccnalu_dec; [apply Hn|..]; assumption | clear -Hle; lia].
   cbn [bind].
